@@ -1,0 +1,20 @@
+//go:build verif
+
+// Contracts for the deductive checks under /verif (comment-only; no code).
+
+package gateway
+
+// ---- C30: where the reader is positioned for the first requested range ------------------------
+// RFC 7233 section 2.1: a first-byte position is used as given; a suffix length -N selects the
+// last N bytes, and the whole representation when it is shorter than N.
+//@ macro rangeStart(from, size) = ite(from >= 0, from, ite(size + from >= 0, size + from, 0))
+//@ func iface io.Seeker.Seek
+//@ func seekToRangeStart
+//@   prop C30
+//@   arith int
+//@   requires 0 <= size
+//@   requires[suffix_is_a_length] ra != nil ==> -9223372036854775807 <= ra.From
+//@   modifies nothing
+//@   site[seeks_to_the_range_start] invoke:Seeker.Seek : arg1 == rangeStart(ra.From, size) && arg2 == io.SeekStart
+//@   ensures[start_of_file_needs_no_seek] ra == nil || ra.From == 0 ==> err == nil && !called("invoke:Seeker.Seek#0")
+//@   ensures[every_other_range_seeks] ra != nil && ra.From != 0 && (ra.From > 0 || ra.To == nil) ==> called("invoke:Seeker.Seek#0") && err == res("invoke:Seeker.Seek#0", 1)
